@@ -1,8 +1,8 @@
 """C18 - file-placement verdicts follow the allow/deny rules exactly.
 
-Generator: rule sets over a small alphabet (directory keys src, src/api, src/api/v1, tests, lib; seven regex patterns;
+Generator: rule sets over a small alphabet (directory keys src, src/api, src/api/v1, tests, lib, .github; nine regex patterns;
 deny items as plain strings or {pattern, reason|message} dicts; global_deny; global_patterns.allow/deny; now and then one
-syntactically invalid pattern) x a tree drawn from 9 directories x 5 file names (with look-alike directories `srcx`,
+syntactically invalid pattern) x a tree drawn from 13 directories x 6 file names (with look-alike directories `srcx`, `github`,
 `src/apix`), delivered through .thailint.yaml, --config <json|yaml> or --rules, and linted as `.`, absolute path,
 file list, sub-directory argument, from a sub-directory cwd or from a foreign cwd.
 Oracle: vf/oracle/c18_placement.py (the statement verbatim); observed = set of tree files with a file-placement
@@ -29,7 +29,7 @@ TECHNIQUE = ("Hypothesis-generated rule sets x generated trees vs. a reference v
              "bounded exhaustive enumeration of small rule sets against a fixed tree; four config carriers, six invocation forms")
 RULE = (
     "case = one rule set (0-3 directory rules with allow/deny lists, global_deny, global_patterns) + one tree of 6-20 "
-    "files + carrier + invocation form; one thailint file-placement run, verdict compared per file. Non-trivial: per the "
+    "files (directories and names also starting with a dot: .github/, ..d/, .env) + carrier + invocation form; one thailint file-placement run, verdict compared per file. Non-trivial: per the "
     "reference at least one file is reported and one is not, and (two directory keys are nested, or some file matches "
     "both allow and deny of its deciding rule, or a global rule exists while some file is not covered by a directory "
     "rule). Distinct = hash of the normalised rule set (patterns per list, sorted)."
